@@ -211,6 +211,59 @@ add("C16", "F-loop-local-output", "open",
     "an unconsumed Signal declared in a loop body (Signal t2 = in1 * i2;) is exported by the unrolled program once per iteration but by the loop not at all",
     {"prog": _lp, "prog2": _lu, "info": {}, "vals": [{"in1": 150}], "optimize": True, "sched": {"seed": 0}, "opts": {}},
     trigger="loop-local-output-not-exposed")
+_sa = Program((Decl("int", "sh", Num(26)), S("in1", "signal-check", 10),
+      For("sh", ListIter((Num(3),)), (Decl("Entity", "shl", Place("small-lamp", Bin("+", Bin("*", Ref("sh"), Num(2)), Num(60)), Num(-50))),
+                                       Assign("shl", "enable", Bin(">", Ref("in1"), Ref("sh"))))),
+      Decl("Entity", "sha", Place("small-lamp", Num(90), Num(-50))), Assign("sha", "enable", Bin(">", Ref("in1"), Ref("sh")))))
+_sb = Program((Decl("int", "sh", Num(26)), S("in1", "signal-check", 10),
+      Decl("Entity", "shl_u0", Place("small-lamp", Bin("+", Bin("*", Num(3), Num(2)), Num(60)), Num(-50))),
+      Assign("shl_u0", "enable", Bin(">", Ref("in1"), Num(3))),
+      Decl("Entity", "sha", Place("small-lamp", Num(90), Num(-50))), Assign("sha", "enable", Bin(">", Ref("in1"), Ref("sh")))))
+add("C16", "X-loop-shadow-leak", "fixed",
+    "an iterator (or body-local name) shadowing an outer int kept the iteration's value after the loop",
+    {"prog": _sa, "prog2": _sb, "info": {"shadow": True}, "vals": [{"in1": 10}], "optimize": True, "sched": {"seed": 0}, "opts": {}}, commit="ed452d7")
+add("C15", "X-local-memory-shared", "fixed",
+    "two calls of a function with a local Memory shared one cell (acc(a) and acc(b) both read a+b)",
+    {"prog": Program((S("a", "signal-A", 3), S("b", "signal-B", 5),
+        Func("acc", (("Signal", "x"),), (MemDecl("count", "signal-C"), Write("count", Proj(Ref("x"), "signal-C"), Bin(">", Ref("x"), Num(0))), Return(MemRead("count")))),
+        Decl("Signal", "r1", Call("acc", (Ref("a"),))), Decl("Signal", "r2", Call("acc", (Ref("b"),))))),
+     "prog2": Program((S("a", "signal-A", 3), S("b", "signal-B", 5),
+        MemDecl("count_c1", "signal-C"), Write("count_c1", Proj(Ref("a"), "signal-C"), Bin(">", Ref("a"), Num(0))), Decl("Signal", "r1", MemRead("count_c1")),
+        MemDecl("count_c2", "signal-C"), Write("count_c2", Proj(Ref("b"), "signal-C"), Bin(">", Ref("b"), Num(0))), Decl("Signal", "r2", MemRead("count_c2")))),
+     "vals": [{"a": 3, "b": 5}], "optimize": True, "sched": {"seed": 0}, "opts": {}}, commit="21a8dd8")
+add("C10", "X-cse-filter-modes", "fixed",
+    "(b < 4) : b and (b < 4) : 1 were merged by CSE (the key ignored the output mode)",
+    {"kind": "bundle", "prog": Program((S("in4", "stone", 0), S("in5", "signal-C", 0), Decl("Bundle", "b1", BLit((Ref("in4"), Ref("in5")))),
+        Decl("Bundle", "b2", Cond(Bin("<", Ref("b1"), Num(4)), Ref("b1"))), Decl("Bundle", "b3", Cond(Bin("<", Ref("b1"), Num(4)), Num(1))))),
+     "steps": [{"in4": 0, "in5": -1}, {"in4": 2, "in5": 7}], "opts": {}, "sched": {"seed": 0}}, commit="fd91500")
+add("C10", "X-folded-ref-in-row", "fixed",
+    "constant propagation did not rewrite references held by multi-condition rows: 'v2 > in1 && in2 < in4' with a folded v2 compared 0",
+    {"kind": "scalar", "prog": Program((Decl("Signal", "in1", Num(0)), Decl("Signal", "in2", Num(0)), Decl("Signal", "in4", Num(0)),
+        Decl("Signal", "v2", Bin("/", Proj(Num(-8), "signal-B"), Num(1))),
+        Decl("Signal", "v3", Bin("&&", Bin(">", Ref("v2"), Ref("in1")), Bin("<", Ref("in2"), Ref("in4")))))),
+     "steps": [{"in1": -5, "in2": 2, "in4": 24}, {"in1": -50, "in2": 2, "in4": 24}], "opts": {}, "sched": {"seed": 0}}, commit="d9db787")
+
+
+def _balanced(n, pads):
+    st = [Decl("Signal", f"pad{i}", Num(i + 1)) for i in range(pads)]
+    for i in range(n):
+        st.append(Decl("Entity", f"chest{i + 1}", Place("steel-chest", Num(i), Num(0))))
+    st.append(Decl("Bundle", "total", BLit(tuple(PropRead(f"chest{i + 1}", "output") for i in range(n)))))
+    st.append(Decl("Bundle", "f", Bin("/", Ref("total"), Num(-n))))
+    for i in range(n):
+        st.append(Decl("Bundle", f"d{i + 1}", BLit((Ref("f"), PropRead(f"chest{i + 1}", "output")))))
+    for i in range(n):
+        st.append(Decl("Entity", f"load{i + 1}", Place("fast-inserter", Num(i), Num(-1))))
+        st.append(Assign(f"load{i + 1}", "enable", Bin("<", AllOf(Ref(f"d{i + 1}")), Num(0))))
+    return Program(tuple(st))
+
+
+add("C06", "X-merge-order-as-strings", "fixed",
+    "two-chest balanced loader: merge ids crossing 9 -> 10 were ordered as strings, a chest's contents leaked into the other inserter's condition",
+    {"prog": _balanced(2, 0), "opts": {}, "vals": [{}, {}],
+     "contents": [{"chest1": {"iron-plate": 100}, "chest2": {"iron-plate": 10}}, {"chest1": {"iron-plate": 10}, "chest2": {"iron-plate": 100}}],
+     "optimize": True, "sched": {"seed": 0}}, commit="dea542d")
+
 
 
 def main():
